@@ -74,14 +74,12 @@ Theorem C09_add_binding_total : forall isLetter isNumber resolves body_ok resp_o
 Proof. exact add_binding_benign. Qed.
 Print Assumptions C09_add_binding_total.
 
-(* appendHandler keeps one explicit panic("bug: ...") -- reached exactly when the method's own
-   implicit /Service/Method rule is refused (at configuration time, never by a request) *)
-Theorem C09_append_handler_partial : forall isLetter isNumber resolves body_ok resp_ok root d,
-  MatchProofs.benign (Trie.append_handler resolves body_ok resp_ok isLetter isNumber root d) \/
-  (Trie.append_handler resolves body_ok resp_ok isLetter isNumber root d = Panic PExplicit /\
-   exists e, Trie.add_rule resolves body_ok resp_ok isLetter isNumber (Trie.d_id d) root (Trie.implicit_rule (Trie.d_id d)) = Err e).
+(* appendHandler (registration of one method: implicit rule, selected service-config rules, annotation)
+   is total since the repair of R10 (its explicit panic("bug: ...") is now an error) *)
+Theorem C09_append_handler_total : forall isLetter isNumber resolves body_ok resp_ok root d,
+  MatchProofs.benign (Trie.append_handler resolves body_ok resp_ok isLetter isNumber root d).
 Proof. exact append_handler_total. Qed.
-Print Assumptions C09_append_handler_partial.
+Print Assumptions C09_append_handler_total.
 
 (* setRules / getRules: the only panic is the documented invalid-selector panic, at configuration time *)
 Theorem C09_selector_partial : forall (R : Type) (sel : R -> bytes) (rs : list R) (name : bytes),
